@@ -122,11 +122,11 @@ def step3(**kw):
 
 
 def step3t(**kw):
-    return step(k=3, per_kind=8, **kw)
+    return step(k=3, per_kind=4, **kw)
 
 
 def step4(**kw):
-    return step(k=4, per_kind=8, **kw)
+    return step(k=4, per_kind=3, **kw)
 
 
 def plan(tier, seed):
